@@ -41,14 +41,16 @@ func Unpack(buf []byte, dotu bool) (fc *Fcall, fcsz int, err error) {
 		return nil, 0, &Error{"invalid id", EINVAL}
 	}
 
+	// the tables hold the minimum size of the message body, without
+	// the size[4] type[1] tag[2] header
 	var sz uint32
 	if dotu {
-		sz = minFcsize[fc.Type-Tversion]
-	} else {
 		sz = minFcusize[fc.Type-Tversion]
+	} else {
+		sz = minFcsize[fc.Type-Tversion]
 	}
 
-	if fc.Size < sz {
+	if fc.Size < sz+7 {
 		goto szerror
 	}
 
